@@ -77,6 +77,15 @@ class PE(BinFormat):
         return self.NT
 
     def __init__(self, data):
+        try:
+            self.__load(data)
+        except (PEError, StructureError):
+            raise
+        except Exception as e:
+            # malformed content is reported with the format's own error type
+            raise PEError("malformed PE file (%s: %s)" % (type(e).__name__, e))
+
+    def __load(self, data):
         self.data = data
         # parse DOS header:
         try:
